@@ -786,7 +786,7 @@ static void case_handshake(long idx, Rng& r) {
         u32 pickn = r.below((u32)left); size_t i = 0; for (;; ++i) { size_t rem = scripts[i].size() - pos[i]; if (pickn < rem) break; pickn -= (u32)rem; }
         size_t burst = 1 + (r.chance(1, 2) ? r.below(4) : 0); for (size_t b = 0; b < burst && pos[i] < scripts[i].size(); ++b) { evs.push_back(scripts[i][pos[i]++]); --left; }
         if (r.chance(1, 6)) { int ni = (int)r.below((u32)nn); evs.push_back(beacon(ni, (int)r.below((u32)nets[ni].bssid.size()))); }
-        if (r.chance(1, 10)) { Ev e; e.kind = 3; Mac fb = fresh(); e.frame = beacon_frame(r, fb, r.chance(1, 3) ? nets[0].ssid + "x" : rnd_text(r, r.below(33), false), r.chance(1, 2), true); e.what = "foreign beacon " + macs(fb); evs.push_back(e); }
+        if (r.chance(1, 10)) { Ev e; e.kind = 3; Mac fb = fresh(); std::string fs; do fs = r.chance(1, 3) ? nets[0].ssid.substr(0, 31) + "x" : rnd_text(r, r.below(33), false); while (std::any_of(nets.begin(), nets.end(), [&](const Net& o) { return o.ssid == fs; })); e.frame = beacon_frame(r, fb, fs, r.chance(1, 2), true); e.what = "foreign beacon " + macs(fb); evs.push_back(e); }
         if (r.chance(1, 10)) { Ev e; e.kind = 3; const HSta& s = stas[r.below((u32)stas.size())]; u16 v = s.ccmp ? 2 : 1; bool g1 = r.chance(1, 2);
             e.frame = llc_frame(r, s.bssid, s.mac, g1, false, 0x888e, eapol_key(s.ever, (u16)((g1 ? 0x1380 : 0x0300) | v), g1 ? 16 : 0, r.below(1000), g1 ? r.bytes(32) : Bytes(32, 0), Bytes(16, 0), g1 ? r.bytes(40) : Bytes(), r.bytes(16).data())); e.what = std::string("group-key message ") + (g1 ? "1" : "2"); evs.push_back(e); }
         if (r.chance(1, 10)) { Ev e; e.kind = 3; const HSta& s = stas[r.below((u32)stas.size())]; Plain p = gen_plain(r, 28 + r.below(60), 1); e.frame = llc_frame(r, s.bssid, s.mac, r.chance(1, 2), false, 0x0800, Bytes(p.bytes.begin() + 8, p.bytes.end())); e.what = "unprotected data frame"; evs.push_back(e); }
